@@ -85,7 +85,7 @@ type WOpts struct {
 }
 
 var WireFeatures = []string{"bind", "bind-value-impl", "value", "ivalue", "struct", "struct-fields", "struct-value-consumer", "fieldsof", "fieldsof-value", "fieldsof-ptr",
-	"sets", "nested-sets", "inline-sets", "inline-sets-deep", "struct-unexported-field", "ext-alias-suffix", "ext-name-differs-from-path", "composite", "same-name-packages-across-files", "fieldsof-twice", "second-injector", "twin-types-in-same-named-packages", "value-ext-var", "build-in-panic", "named-alias", "wire-import-alias", "wire-legacy-build-tag", "wire-sets-in-var-block", "value-ext-nested-selector", "decoy-constructor-in-migrated-package", "struct-in-ext-package", "fieldsof-in-ext-package", "err", "args", "unused-arg", "multi-file", "ext", "bind-foreign-ctor", "bind-split-set", "multi-result"}
+	"sets", "nested-sets", "inline-sets", "inline-sets-deep", "struct-unexported-field", "ext-alias-suffix", "ext-name-differs-from-path", "composite", "same-name-packages-across-files", "fieldsof-twice", "second-injector", "twin-types-in-same-named-packages", "value-ext-var", "build-in-panic", "struct-keyword-field", "struct-noinject-tag", "struct-no-fields", "named-alias", "wire-import-alias", "wire-legacy-build-tag", "wire-sets-in-var-block", "value-ext-nested-selector", "decoy-constructor-in-migrated-package", "struct-in-ext-package", "fieldsof-in-ext-package", "err", "args", "unused-arg", "multi-file", "ext", "bind-foreign-ctor", "bind-split-set", "multi-result"}
 
 func WAllowAll(except ...string) map[string]bool {
 	m := map[string]bool{}
@@ -569,18 +569,35 @@ func (g *wgen) genStruct() {
 		fname := "F" + string(rune('A'+i))
 		if extPkg == "" && g.want("struct-unexported-field", "unexpfield", 30) {
 			fname = "f" + string(rune('a'+i)) // same-package unexported field: wire injects it too
+		} else if g.want("struct-keyword-field", "kwfield", 15) {
+			// exported field whose lower-case form is a Go keyword
+			kw := []string{"Type", "Func", "Range", "Var", "Map", "Go", "Select", "Chan", "Default", "Import"}
+			fname = kw[(i*3+rapid.IntRange(0, 2).Draw(g.rt, "kwidx"))%len(kw)]
 		}
-		s.Fields = append(s.Fields, Field{Name: fname, Type: t})
-		req = append(req, t)
+		f := Field{Name: fname, Type: t}
+		if i > 0 && g.want("struct-noinject-tag", "noinject", 20) {
+			f.Tag = `wire:"-"` // wire never injects this field
+		}
+		s.Fields = append(s.Fields, f)
+		if f.Tag == "" {
+			req = append(req, t)
+		}
 	}
 	if len(s.Fields) == 0 {
 		return
 	}
 	// an extra field that is not injected when a field list is given
 	fields := []string{"*"}
-	if len(s.Fields) >= 2 && g.want("struct-fields", "sfl", 40) {
+	if g.want("struct-no-fields", "snofields", 10) {
+		// wire.Struct(new(S)): no field names, nothing is injected
+		fields = []string{}
+		req = nil
+	} else if len(s.Fields) >= 2 && g.want("struct-fields", "sfl", 40) {
 		fields = nil
 		for i, f := range s.Fields {
+			if f.Tag != "" {
+				continue
+			}
 			if i == 0 || rapid.Bool().Draw(g.rt, "keepfield") {
 				fields = append(fields, f.Name)
 			}
